@@ -3,7 +3,7 @@
 // The generator assembles every program piece by piece and therefore KNOWS each literal's offset
 // (-> 1-based line / code-point column of the opening quote), value, byte length and the name it
 // initialises; the reported set must equal that table exactly.
-const { enumerate } = require('../lib/explore')
+const { enumerate, addStats } = require('../lib/explore')
 const C = require('../grammar/configs')
 
 // value of the requested UTF-8 byte length; kind: ascii | two (one 2-byte char) | three (one 3-byte char)
@@ -74,6 +74,87 @@ const PLACEMENTS = {
   typeof_cmp: P(['x = typeof a === ', 0, ';']),
   chain_arg: P(['x = s?.concat(', 0, ');'])
 }
+// ---- composed placements: every wrapper, and every wrapper inside every wrapper --------------------------
+// H is the hole; X(f) is a further literal written directly by the wrapper, f(holeIsLiteral) gives its
+// expected attributes. `hole` = attributes of a literal that sits directly in the hole.
+const H = { hole: true }
+const X = (f) => ({ extra: true, opts: f || (() => ({})) })
+const WRAPS = {
+  call: { parts: ['h(', H, ')'] },
+  call_second: { parts: ['h(a, ', H, ')'] },
+  objval: { parts: ['{ k8: ', H, ' }'], hole: { ident: 'k8' } },
+  objval_strkey: { parts: ["{ 'k9': ", H, ' }'] },
+  objval_numkey: { parts: ['{ 1: ', H, ' }'] },
+  obj_computed_key: { parts: ['{ [', H, ']: a }'] },
+  obj_computed_key_litval: { parts: ['{ [', H, ']: ', X(), ' }'] },
+  obj_computed_val: { parts: ['{ [a]: ', H, ' }'] },
+  obj_two: { parts: ['{ k10: ', X(() => ({ ident: 'k10' })), ', k11: ', H, ' }'], hole: { ident: 'k11' } },
+  obj_spread: { parts: ['{ ...', H, ' }'] },
+  obj_spread_then_val: { parts: ['{ ...a, k12: ', H, ' }'], hole: { ident: 'k12' } },
+  obj_method: { parts: ['{ m() { return ', H, ' } }'] },
+  obj_getter: { parts: ['{ get g() { return ', H, ' } }'] },
+  obj_method_computed: { parts: ['{ [', H, ']() { return ', X(), ' } }'] },
+  arr: { parts: ['[', H, ']'] },
+  arr_spread: { parts: ['[...', H, ']'] },
+  plus_l: { parts: [H, ' + a'] },
+  plus_r: { parts: ['a + ', H] },
+  concat_arg: { parts: ['a.concat(', H, ')'] },
+  concat_recv: { parts: [H, '.concat(a)'] },
+  tpl: { parts: ['`${', H, '}`'] },
+  tpl_with_ident: { parts: ['`${a}${', H, '}`'] },
+  tagged: { parts: ['h`t${', H, '}`'] },
+  cond: { parts: ['(c ? ', H, ' : ', X(), ')'] },
+  cond_test: { parts: ['(', H, ' ? a : c)'] },
+  paren: { parts: ['(', H, ')'] },
+  seq: { parts: ['(a, ', H, ')'] },
+  require: { parts: ['require(', H, ')'], hole: { excluded: true } },
+  require_two: { parts: ['require(', H, ', ', X((lit) => ({ excluded: lit })), ')'], hole: { excluded: true } },
+  require_after_ident: { parts: ['require(a, ', H, ')'] },
+  require_after_number: { parts: ['require(1, ', H, ')'], hole: { excluded: true }, region: { excluded: true } }, // the whole call is skipped
+  regexp_after_number: { parts: ['new RegExp(1, ', H, ')'], hole: { excluded: true }, region: { excluded: true } },
+  require_member: { parts: ['o.require(', H, ')'] },
+  regexp: { parts: ['new RegExp(', H, ')'], hole: { excluded: true } },
+  regexp_two: { parts: ['new RegExp(', H, ', ', X((lit) => ({ excluded: lit })), ')'], hole: { excluded: true } },
+  regexp_call: { parts: ['RegExp(', H, ')'] },
+  arrow_call: { parts: ['(() => (', H, '))()'] },
+  arrow_block: { parts: ['(() => { const n9 = ', H, '; return n9 })()'], hole: { ident: 'n9' } },
+  member: { parts: ['o[', H, ']'] },
+  optmember: { parts: ['s?.[', H, ']'] },
+  optcall_arg: { parts: ['s?.concat(', H, ')'] },
+  assign_member: { parts: ['(o.p = ', H, ')'] },
+  plus_assign_member: { parts: ['(o.p += ', H, ')'] },
+  logical: { parts: ['(a || ', H, ')'] },
+  nullish: { parts: ['(a ?? ', H, ')'] },
+  unary: { parts: ['typeof ', H] },
+  new_arg: { parts: ['new X(', H, ')'] },
+  class_static: { parts: ['class { static s = ', H, ' }'] },
+  class_method: { parts: ['class { m() { return ', H, ' } }'] },
+  class_computed: { parts: ['class { [', H, ']() {} }'] },
+  fn_default: { parts: ['function (p = ', H, ') {}'] },
+  fn_destructuring_default: { parts: ['function ({ p = ', H, ' }) {}'] },
+  in_op: { parts: ['(', H, ' in o)'] },
+  proto_call: { parts: ['String.prototype.concat.call(a, ', H, ')'] }
+}
+function composeWrap (outerName, innerName) {
+  const parts = []; const slots = []
+  const inner = WRAPS[innerName]
+  const put = (w, holeFill, holeIsLiteral) => {
+    for (const part of w.parts) {
+      if (part === H) holeFill()
+      else if (part && part.extra) { slots.push(part.opts(holeIsLiteral)); parts.push(slots.length - 1) } else parts.push(part)
+    }
+  }
+  const fillInner = () => put(inner, () => { slots.push(inner.hole || {}); parts.push(slots.length - 1) }, true)
+  if (outerName) {
+    const outer = WRAPS[outerName]
+    put(outer, () => { const n0 = slots.length; fillInner(); if (outer.region) for (let k = n0; k < slots.length; k++) slots[k] = Object.assign({}, slots[k], outer.region) }, false)
+  } else fillInner()
+  return P(['x = '].concat(parts, [';']), slots)
+}
+const COMPOSED = {}
+for (const i of Object.keys(WRAPS)) COMPOSED['w:' + i] = composeWrap(null, i)
+for (const o of Object.keys(WRAPS)) for (const i of Object.keys(WRAPS)) COMPOSED['w:' + o + '>' + i] = composeWrap(o, i)
+
 const TOP_PLACEMENTS = {
   top_const: P(['const t1 = ', 0, ';'], [{ ident: 't1' }]),
   top_plus: P(['var t2 = g1 + ', 0, ';']),
@@ -93,7 +174,7 @@ const SPELLINGS = {
 
 function buildProgram (placeName, lenIdx, layout, multiplicity, modified, same, spelling) {
   const spell = SPELLINGS[spelling || 'plain']
-  const place = PLACEMENTS[placeName] || TOP_PLACEMENTS[placeName]
+  const place = PLACEMENTS[placeName] || TOP_PLACEMENTS[placeName] || COMPOSED[placeName]
   const top = !!TOP_PLACEMENTS[placeName]
   const eol = layout === 'crlf' ? '\r\n' : '\n'
   let text = ''
@@ -147,8 +228,22 @@ async function build (tier) {
     { name: 'spelling', symbols: Object.keys(SPELLINGS) }
   ]
   const r = enumerate(dims, { k: tier === 'thorough' ? 3 : 1 })
-  const leaves = r.leaves.filter((l) => !l.pick.same || (PLACEMENTS[l.pick.place] || TOP_PLACEMENTS[l.pick.place]).slots.length > 1).map((l) => ({ key: [l.pick.place, l.pick.len, l.pick.layout, l.pick.mult, l.pick.modified, l.pick.literals, l.pick.same, l.pick.spelling].join('¦'), pick: l.pick }))
-  return { leaves, stats: r.stats, bound: { deviations_k_over_layout_multiplicity_literalsOption: tier === 'thorough' ? 3 : 1, placements: Object.keys(PLACEMENTS).length + Object.keys(TOP_PLACEMENTS).length, lengths: lens.length }, alphabets: { placements: Object.keys(PLACEMENTS).concat(Object.keys(TOP_PLACEMENTS)), lengths: LENGTHS.map((x) => x.join(':')), layouts: LAYOUTS } }
+  // composed placements: full product with the lengths on both sides of each bound and modified/unmodified
+  const clens = tier === 'thorough' ? lens : [1, 2, 5, 6]
+  const r2 = enumerate([
+    { name: 'place', symbols: Object.keys(COMPOSED), free: true },
+    { name: 'len', symbols: clens, free: true },
+    { name: 'modified', symbols: [true, false], free: true },
+    { name: 'layout', symbols: ['same_line', 'own_line'] },
+    { name: 'mult', symbols: ['once', 'twice'] },
+    { name: 'literals', symbols: ['omitted'] },
+    { name: 'same', symbols: [false, true] },
+    { name: 'spelling', symbols: ['plain'] }
+  ], { k: tier === 'thorough' ? 2 : 0 })
+  r.leaves = r.leaves.concat(r2.leaves.filter((l) => !l.pick.same || COMPOSED[l.pick.place].slots.length > 1))
+  r.stats = addStats(r.stats, r2.stats)
+  const leaves = r.leaves.filter((l) => !l.pick.same || (PLACEMENTS[l.pick.place] || TOP_PLACEMENTS[l.pick.place] || COMPOSED[l.pick.place]).slots.length > 1).map((l) => ({ key: [l.pick.place, l.pick.len, l.pick.layout, l.pick.mult, l.pick.modified, l.pick.literals, l.pick.same, l.pick.spelling].join('¦'), pick: l.pick }))
+  return { leaves, stats: r.stats, bound: { deviations_k_over_layout_multiplicity_literalsOption: tier === 'thorough' ? 3 : 1, placements: Object.keys(PLACEMENTS).length + Object.keys(TOP_PLACEMENTS).length, composed_placements: Object.keys(COMPOSED).length, wrappers: Object.keys(WRAPS).length, lengths: lens.length }, alphabets: { placements: Object.keys(PLACEMENTS).concat(Object.keys(TOP_PLACEMENTS)), wrappers: Object.keys(WRAPS), lengths: LENGTHS.map((x) => x.join(':')), layouts: LAYOUTS } }
 }
 
 function cfgOf (pick, base) {
@@ -228,7 +323,7 @@ module.exports = {
   build,
   requests,
   check,
-  rule: 'leaf = (placement of 1-2 string literals, 52 placements) x (UTF-8 byte length around both bounds, ASCII / 2-byte / 3-byte characters) x layout x multiplicity x {file modified or not} x literals option, with up to k deviations among layout/multiplicity/option; each leaf = two real calls (full config and nothing enabled); non-trivial = every leaf (the generator-known table, possibly empty, is compared exactly); distinct by (text, option)',
+  rule: 'leaf = (placement of 1-3 string literals: 56 hand-written placements plus every one of 54 expression wrappers alone and inside every other wrapper, 2970 composed placements) x (UTF-8 byte length around both bounds, ASCII / 2-byte / 3-byte characters) x layout x multiplicity x {file modified or not} x literals option, with up to k deviations among layout/multiplicity/option; each leaf = two real calls (full config and nothing enabled); non-trivial = every leaf (the generator-known table, possibly empty, is compared exactly); distinct by (text, option)',
   explanation: 'explicit enumeration; oracle = generator-known literal table (value, 1-based line, code-point column of the opening quote, initialised name) compared as a set with the report, text at each reported position re-read from the input, and report(full config) == report(nothing enabled)',
   assumptions: ['columns are counted in code points; astral characters are not generated', 'values contain no quotes or escapes, so value == source text between the quotes']
 }
